@@ -186,8 +186,8 @@ func callRecovered(m reflect.Value, r *vlib.Rand, keyPool int, recv reflect.Valu
 // ---- monitor 3: self-deadlock -------------------------------------------------------------
 
 //go:noinline
-func probeCall(m reflect.Value, r *vlib.Rand, recv reflect.Value, done chan<- interface{}) {
-	_, p := callRecovered(m, r, 4, recv)
+func probeCall(m reflect.Value, r *vlib.Rand, recv reflect.Value, keyPool int, done chan<- interface{}) {
+	_, p := callRecovered(m, r, keyPool, recv)
 	done <- p
 }
 
@@ -284,7 +284,13 @@ func selfDeadlockProbe(c *vlib.Ctx) {
 				}
 				m := inst.Method(mi)
 				done := make(chan interface{}, 1)
-				go probeCall(m, r, inst, done)
+				// bounded-full: draw the key from a large pool so that it is new and the insert
+				// has to take its eviction path
+				kp := 4
+				if variant == "bounded-full" {
+					kp = 1 << 20
+				}
+				go probeCall(m, r, inst, kp, done)
 				verdict := ""
 				var pan interface{}
 				waits := []time.Duration{20 * time.Millisecond, 100 * time.Millisecond, 400 * time.Millisecond, time.Second, 3 * time.Second, 10 * time.Second, 30 * time.Second}
